@@ -134,6 +134,15 @@ fn echo_of(req: &Frame) -> Frame {
 
 // =========================================================================== C04
 
+/// A body whose serialization fails, after a nap (a scheduling point for everybody else).
+struct FailsLate(u64);
+impl serde::Serialize for FailsLate {
+    fn serialize<S: serde::Serializer>(&self, _s: S) -> Result<S::Ok, S::Error> {
+        thread::sleep(Duration::from_micros(self.0));
+        Err(serde::ser::Error::custom("this body cannot be serialized"))
+    }
+}
+
 fn c04_client(case: &Case) {
     net::reset(draw_net());
     let listener = TcpListener::bind("127.0.0.1:0").unwrap();
@@ -141,12 +150,13 @@ fn c04_client(case: &Case) {
     let ncallers = pick(&[1u32, 2, 2, 3, 3, 4, 4, 5, 6, 6, 8, 16, 32, 64]);
     let calls_each = if ncallers > 8 { 1 } else { range(1, 2) };
     let with_batch = simkernel::choose(3) == 0;
-    let batch_n = if with_batch { pick(&[1u32, 2, 5, 9, 20]) } else { 0 };
+    let batch_n = if with_batch { pick(&[1u32, 2, 5, 9, 20, 20, 64, 65, 70, 130]) } else { 0 };
     let window = range(1, 6.min(ncallers + batch_n.min(4)).max(1)) as usize;
     let inject_unknown = pick(&[0u32, 0, 20, 50]);
     let inject_dup = pick(&[0u32, 0, 20, 50]);
+    let n_spoilers = pick(&[0u32, 0, 1, 2]);
     case.sample(json!({"callers": ncallers, "calls_each": calls_each, "batch": batch_n, "server_window": window,
-        "inject_unknown_pct": inject_unknown, "inject_dup_pct": inject_dup}));
+        "inject_unknown_pct": inject_unknown, "inject_dup_pct": inject_dup, "callers_whose_body_fails_to_serialize": n_spoilers}));
 
     let srv_case = case.clone();
     let server = thread::spawn(move || {
@@ -243,6 +253,20 @@ fn c04_client(case: &Case) {
                     case.fail(class, e);
                 }
             }
+        }));
+    }
+    // spoilers: calls / notifies that fail locally because their body does not serialize
+    // (the failure is reported only after other callers had time to take ids and send)
+    for k in 0..n_spoilers {
+        let c = client.clone();
+        let case = case.clone();
+        let nap = pick(&[0u64, 10, 200, 3_000]);
+        let as_notify = coin();
+        hs.push(thread::spawn(move || {
+            let body = FailsLate(nap);
+            let r = if as_notify { c.notify_json(format!("/echo/spoiler{k}"), &body).map(|_| ()) } else { c.call_json(format!("/echo/spoiler{k}"), &body).map(|_| ()) };
+            case.probe("fault.body_failed_to_serialize");
+            case.check(r.is_err(), "unserializable-body-sent", || "a request whose body failed to serialize returned Ok".into());
         }));
     }
     if batch_n > 0 {
